@@ -207,11 +207,644 @@ Proof.
   apply (g_value_mono _ (Nat.max f f')) in G'; [|lia]. congruence.
 Qed.
 
+(* ================= B. second pass over the parser: kind of numbers, rest on errors ================= *)
+Local Notation PR := (option (bytes * bytes * Z * option json_err)).
+
+(* ---------- B.1 every successful return of parseNumber carries a number kind ---------- *)
+Definition numk (res : PR) : Prop := forall v r k, res = Some (v, r, k, None) -> is_num_kind k = true.
+Lemma numk_ret v r k e : is_num_kind k = true -> numk (Some (v, r, k, e)).
+Proof. intros H v' r' k' E. injection E as _ _ <- _. exact H. Qed.
+Lemma numk_none : numk None.
+Proof. intros v r k E. discriminate E. Qed.
+Lemma numk_err v r k e : numk (Some (v, r, k, Some e)).
+Proof. intros v' r' k' E. discriminate E. Qed.
+
+Lemma pn_k1_numk b r kind err i : is_num_kind kind = true -> numk (pn_k1 b r kind err i).
+Proof. intros H. unfold pn_k1. apply numk_ret, H. Qed.
+Lemma pn_loop3_numk b v r kind start k2 : is_num_kind kind = true -> (forall err i, numk (k2 err i)) ->
+  forall fuel err i, numk (pn_loop3 b v r kind start k2 fuel err i).
+Proof.
+  intros Hk H2. induction fuel as [|f IH]; intros err i; [apply numk_none|].
+  cbn [pn_loop3]. destruct (i <? len b); [|apply H2]. cbv zeta.
+  destruct ((48 >? at_ b i) || (at_ b i >? 57)); [|apply IH].
+  destruct (i =? start); [apply numk_ret, Hk|apply H2].
+Qed.
+Lemma pn_k6_numk b v r kind err fuel i : is_num_kind kind = true -> numk (pn_k6 b v r kind err fuel i).
+Proof.
+  intros Hk. unfold pn_k6. destruct (i =? len b); [apply numk_ret, Hk|]. cbv zeta.
+  apply pn_loop3_numk; [exact Hk|]. intros err' i'. apply pn_k1_numk, Hk.
+Qed.
+Lemma pn_k7_numk b v fuel r kind err i : is_num_kind kind = true -> numk (pn_k7 b v fuel r kind err i).
+Proof.
+  intros Hk. unfold pn_k7. destruct ((i <? len b) && ((at_ b i =? 101) || (at_ b i =? 69))); [|apply pn_k1_numk, Hk].
+  cbv zeta. destruct (addi64 i 1 <? len b); [|apply pn_k6_numk; reflexivity].
+  destruct ((at_ b (addi64 i 1) =? 43) || (at_ b (addi64 i 1) =? 45)); apply pn_k6_numk; reflexivity.
+Qed.
+Lemma pn_loop9_numk b v kind start k8 : is_num_kind kind = true -> (forall r err i, numk (k8 r err i)) ->
+  forall fuel r err i, numk (pn_loop9 b v kind start k8 fuel r err i).
+Proof.
+  intros Hk H8. induction fuel as [|f IH]; intros r err i; [apply numk_none|].
+  cbn [pn_loop9]. destruct (i <? len b); [|apply H8]. cbv zeta.
+  destruct ((48 >? at_ b i) || (at_ b i >? 57)); [|apply IH].
+  destruct (i =? start); [apply numk_ret, Hk|apply H8].
+Qed.
+Lemma pn_k12_numk b v r err fuel kind i : is_num_kind kind = true -> numk (pn_k12 b v r err fuel kind i).
+Proof.
+  intros Hk. unfold pn_k12. destruct ((i <? len b) && (at_ b i =? 46)); [|apply pn_k7_numk, Hk].
+  cbv zeta. apply pn_loop9_numk; [reflexivity|]. intros r' err' i'.
+  destruct (i' =? addi64 i 1); [apply numk_ret; reflexivity|apply pn_k7_numk; reflexivity].
+Qed.
+Lemma pn_loop13_numk b k12 : (forall i, numk (k12 i)) -> forall fuel i, numk (pn_loop13 b k12 fuel i).
+Proof.
+  intros H. induction fuel as [|f IH]; intros i; [apply numk_none|]. cbn [pn_loop13].
+  destruct (((i <? len b) && (48 <=? at_ b i)) && (at_ b i <=? 57)); [apply IH|apply H].
+Qed.
+Lemma pn_k16_numk b fuel kind v r err i : is_num_kind kind = true -> numk (pn_k16 b fuel kind v r err i).
+Proof. intros Hk. unfold pn_k16. apply pn_loop13_numk. intros j. apply pn_k12_numk, Hk. Qed.
+Lemma pn_k17_numk b fuel v r err kind i : is_num_kind kind = true -> numk (pn_k17 b fuel v r err kind i).
+Proof.
+  intros Hk. unfold pn_k17. destruct (i =? len b); [apply numk_ret, Hk|].
+  destruct ((at_ b i <? 48) || (at_ b i >? 57)); [apply numk_ret, Hk|].
+  destruct (at_ b i =? 48); [|apply pn_k16_numk, Hk]. cbv zeta.
+  match goal with |- context [if ?c then _ else _] => destruct c end; [apply numk_ret, Hk|].
+  match goal with |- context [if ?c then _ else _] => destruct c end; [apply numk_ret, Hk|apply pn_k16_numk, Hk].
+Qed.
+Lemma parseNumber_numk fuel d b : numk (json_decoder_parseNumber fuel d b).
+Proof.
+  rewrite parseNumber_eq. destruct (len b =? 0); [apply numk_err|].
+  destruct (at_ b 0 =? 45); apply pn_k17_numk; reflexivity.
+Qed.
+
+Lemma pv_kind : forall fuel d b v r k, json_decoder_parseValue fuel d b = Some (v, r, k, None) -> num_start b = true -> is_num_kind k = true.
+Proof.
+  intros fuel d b v r k E Hn. destruct fuel as [|f]; [discriminate E|]. rewrite parseValue_eq in E.
+  destruct b as [|c s]; [discriminate Hn|]. rewrite len_cons_nz, at_0 in E. cbv zeta in E.
+  cbn [num_start] in Hn. unfold is_digit in Hn.
+  destruct (Z.eqb_spec c 123); [lia|]. destruct (Z.eqb_spec c 91); [lia|]. destruct (Z.eqb_spec c 34); [lia|].
+  destruct (Z.eqb_spec c 110); [lia|]. destruct (Z.eqb_spec c 116); [lia|]. destruct (Z.eqb_spec c 102); [lia|].
+  match type of E with context [if ?t then _ else _] => destruct t end; [|discriminate E].
+  rewrite dlet_id in E. exact (parseNumber_numk f d (c :: s) v r k E).
+Qed.
+
+(* ---------- B.2 rest returned with an error ---------- *)
+Definition bad (res : PR) (P : Prop) : Prop := forall v r k e, res = Some (v, r, k, Some e) -> r <> [] -> P.
+Lemma bad_ok v r k P : bad (Some (v, r, k, None)) P.
+Proof. intros v' r' k' e E. discriminate E. Qed.
+Lemma bad_nil v k e P : bad (Some (v, [], k, e)) P.
+Proof. intros v' r' k' e' E N. injection E as _ <- _ _. congruence. Qed.
+Lemma bad_none P : bad None P.
+Proof. intros v r k e E. discriminate E. Qed.
+Lemma bad_P res (P : Prop) : P -> bad res P.
+Proof. intros H v r k e _ _. exact H. Qed.
+Lemma bad_imp res (P Q : Prop) : bad res P -> (P -> Q) -> bad res Q.
+Proof. intros H HI v r k e E N. exact (HI (H v r k e E N)). Qed.
+Lemma bad_err v r k e (P : Prop) : (r <> [] -> P) -> bad (Some (v, r, k, e)) P.
+Proof. intros H v' r' k' e' E N. injection E as _ <- _ _. exact (H N). Qed.
+Lemma bad_dlet (res : PR) (K : bytes -> option json_err -> PR) (P : Prop) :
+  bad res P -> (forall v r k, res = Some (v, r, k, None) -> bad (K r None) P) ->
+  bad (dlet (_, b, _, err) <- res in
+       if negb (isnil err) then Some ([], b, json_Undefined, err) else K b err) P.
+Proof.
+  intros H HK. destruct res as [[[[v r] k] e]|]; [|apply bad_none]. cbn [obind]. destruct e as [e|]; cbn [isnil negb].
+  - apply bad_err. intros N. exact (H v r k e eq_refl N).
+  - exact (HK v r k eq_refl).
+Qed.
+
+(* numbers: the exponent part never returns a non-empty rest with an error *)
+Lemma pn_loop3_bad b kind start P : forall fuel i,
+  bad (pn_loop3 b [] [] kind start (fun err i => pn_k1 b [] kind err i) fuel None i) P.
+Proof.
+  induction fuel as [|f IH]; intros i; [apply bad_none|]. cbn [pn_loop3].
+  destruct (i <? len b); [|apply bad_ok]. cbv zeta.
+  destruct ((48 >? at_ b i) || (at_ b i >? 57)); [|apply IH].
+  destruct (i =? start); [apply bad_nil|apply bad_ok].
+Qed.
+Lemma pn_k6_bad b kind fuel i P : bad (pn_k6 b [] [] kind None fuel i) P.
+Proof.
+  unfold pn_k6. destruct (Z.eqb_spec i (len b)) as [X|X].
+  - subst i. rewrite sf_all. apply bad_nil.
+  - cbv zeta. apply pn_loop3_bad.
+Qed.
+Lemma pn_k7_bad b kind fuel i P : bad (pn_k7 b [] fuel [] kind None i) P.
+Proof.
+  unfold pn_k7. destruct ((i <? len b) && ((at_ b i =? 101) || (at_ b i =? 69))); [|apply bad_ok].
+  cbv zeta. destruct (addi64 i 1 <? len b); [|apply pn_k6_bad].
+  destruct ((at_ b (addi64 i 1) =? 43) || (at_ b (addi64 i 1) =? 45)); apply pn_k6_bad.
+Qed.
+
+
+Lemma pn_k12_bad b kind fuel i rest : len b < 2 ^ 62 -> (length b < fuel)%nat ->
+  0 < i <= len b -> slice_from b i = rest ->
+  bad (pn_k12 b [] [] None fuel kind i) (rest <> [] /\ forall m, g_fe (rest ++ m) = None).
+Proof.
+  intros Hb Hf Hi E. unfold pn_k12. destruct rest as [|c r].
+  - pose proof (sf_nil' _ _ E ltac:(lia)). destruct (Z.ltb_spec i (len b)); [lia|]. cbn [andb]. apply pn_k7_bad.
+  - pose proof (sf_cons' _ _ _ _ E ltac:(lia)) as (E1 & E2 & E3).
+    destruct (Z.ltb_spec i (len b)); [|lia]. rewrite E2. clear E2. cbn [andb].
+    destruct (Z.eqb_spec c 46) as [C|C]; [|apply pn_k7_bad]. subst c.
+    cbv zeta. rewrite addi64_small by lia. rewrite pn_loop9_scan.
+    assert (Lr : (length r <= length b)%nat).
+    { rewrite <- E3. unfold slice_from. rewrite skipn_length. lia. }
+    destruct r as [|d r'].
+    + destruct fuel as [|f]; [lia|]. rewrite (pn_scan_fail b (i + 1) _ _ f []); [|lia|assumption|exact I].
+      rewrite Z.eqb_refl. rewrite E3. apply bad_nil.
+    + destruct (is_digit d) eqn:D.
+      * match goal with |- context [pn_scan b ?s ?EE ?kk fuel _] =>
+          destruct (pn_scan_spec b s EE kk Hb (d :: r') (i + 1) fuel) as (j & J1 & J2 & J3 & J4) end;
+          [lia|assumption|lia|intros _; exists d, r'; auto|].
+        rewrite J4. destruct (Z.eqb_spec j (i + 1)); [lia|]. apply pn_k7_bad.
+      * destruct fuel as [|f]; [lia|]. rewrite (pn_scan_fail b (i + 1) _ _ f (d :: r')); [|lia|assumption|assumption].
+        apply bad_P. split; [discriminate|]. intros m. unfold g_fe. rewrite g_frac_eq. cbn [app].
+        change (46 =? 46) with true. cbv iota. rewrite D. reflexivity.
+Qed.
+
+Lemma pn_k16_bad b kind fuel i rest : len b < 2 ^ 62 -> (length b < fuel)%nat ->
+  0 <= i <= len b -> slice_from b i = rest ->
+  (0 < i \/ match rest with d :: _ => is_digit d = true | [] => False end) ->
+  bad (pn_k16 b fuel kind [] [] None i) (forall m, g_fe (skip_digits (rest ++ m)) = None).
+Proof.
+  intros Hb Hf Hi E Hd. unfold pn_k16.
+  assert (Lr : (length rest <= length b)%nat).
+  { subst rest. unfold slice_from. rewrite skipn_length. lia. }
+  destruct (pn_loop13_spec b (pn_k12 b [] [] None fuel kind) Hb rest i fuel) as (j & J1 & J2 & J3 & J4);
+    [lia|assumption|lia|].
+  rewrite J4. eapply bad_imp.
+  - apply (pn_k12_bad b kind fuel j (skip_digits rest)); auto. destruct Hd as [Hd|Hd]; [lia|]. apply J2 in Hd. lia.
+  - intros [N H] m. rewrite skip_digits_app by assumption. apply H.
+Qed.
+
+Lemma pn_k17_bad b kind fuel i rest : len b < 2 ^ 62 -> (length b < fuel)%nat ->
+  0 <= i <= len b -> slice_from b i = rest ->
+  bad (pn_k17 b fuel [] [] None kind i) (forall m, g_number_body (rest ++ m) = None).
+Proof.
+  intros Hb Hf Hi E. unfold pn_k17. destruct rest as [|c r].
+  - pose proof (sf_nil' _ _ E ltac:(lia)). destruct (Z.eqb_spec i (len b)); [|lia]. rewrite E. apply bad_nil.
+  - pose proof (sf_cons' _ _ _ _ E ltac:(lia)) as (E1 & E2 & E3).
+    destruct (Z.eqb_spec i (len b)); [lia|]. rewrite E2, nondigit_ltb. clear E2.
+    destruct (Z.eqb_spec c 48) as [C0|C0].
+    + subst c. change (negb (is_digit 48)) with false. cbv iota. cbv zeta.
+      rewrite addi64_small by lia.
+      destruct r as [|x r'].
+      * pose proof (sf_nil' _ _ E3 ltac:(lia)). destruct (Z.eqb_spec (i + 1) (len b)); [|lia]. cbn [orb]. apply bad_ok.
+      * pose proof (sf_cons' _ _ _ _ E3 ltac:(lia)) as (F1 & F2 & F3).
+        destruct (Z.eqb_spec (i + 1) (len b)); [lia|]. cbn [orb]. rewrite F2. clear F2.
+        assert (K : is_digit x = false ->
+          bad (pn_k16 b fuel kind [] [] None (i + 1)) (forall m, g_number_body ((48 :: x :: r') ++ m) = None)).
+        { intros Dx. eapply bad_imp; [apply (pn_k16_bad b kind fuel (i + 1) (x :: r') Hb Hf ltac:(lia) E3 ltac:(lia))|].
+          intros H m. specialize (H m). cbn [app skip_digits] in H. rewrite Dx in H.
+          cbn [app g_number_body]. change (48 =? 48) with true. cbv iota. exact H. }
+        destruct (Z.eqb_spec x 46) as [X1|X1].
+        -- subst x. cbn [negb andb]. change ((48 <=? 46) && (46 <=? 57)) with false. cbv iota. apply K. reflexivity.
+        -- cbn [negb andb]. destruct (Z.eqb_spec x 101) as [X2|X2].
+           ++ subst x. cbn [negb andb]. change ((48 <=? 101) && (101 <=? 57)) with false. cbv iota. apply K. reflexivity.
+           ++ cbn [negb andb]. destruct (Z.eqb_spec x 69) as [X3|X3].
+              ** subst x. cbn [negb]. change ((48 <=? 69) && (69 <=? 57)) with false. cbv iota. apply K. reflexivity.
+              ** cbn [negb]. apply bad_ok.
+    + destruct (is_digit c) eqn:D; cbn [negb].
+      * eapply bad_imp; [apply (pn_k16_bad b kind fuel i (c :: r) Hb Hf Hi E); right; exact D|].
+        intros H m. specialize (H m). cbn [app skip_digits] in H. rewrite D in H.
+        cbn [app g_number_body]. destruct (Z.eqb_spec c 48); [contradiction|]. rewrite D. exact H.
+      * apply bad_P. intros m. cbn [app g_number_body]. destruct (Z.eqb_spec c 48); [contradiction|]. rewrite D. reflexivity.
+Qed.
+
+Lemma parseNumber_bad fuel d b : len b < 2 ^ 62 -> (length b < fuel)%nat ->
+  bad (json_decoder_parseNumber fuel d b) (forall m, g_number (b ++ m) = None).
+Proof.
+  intros Hb Hf. rewrite parseNumber_eq. destruct b as [|c r].
+  - cbn. apply bad_nil.
+  - rewrite len_cons, at_0. pose proof (len_nonneg r). destruct (Z.eqb_spec (len r + 1) 0); [lia|].
+    destruct (Z.eqb_spec c 45) as [C|C].
+    + rewrite addi64_small by (cbn; lia). eapply bad_imp.
+      * apply (pn_k17_bad (c :: r) json_Int fuel 1 r); auto. rewrite len_cons. lia.
+      * intros HH m. rewrite g_number_eq. cbn [app]. destruct (Z.eqb_spec c 45); [|contradiction]. apply HH.
+    + eapply bad_imp.
+      * apply (pn_k17_bad (c :: r) json_Uint fuel 0 (c :: r)); auto. rewrite len_cons. lia.
+      * intros HH m. rewrite g_number_eq. cbn [app]. destruct (Z.eqb_spec c 45); [contradiction|]. apply (HH m).
+Qed.
+
+(* strings *)
+Lemma parseUnicode_n d s : snd (fst (json_decoder_parseUnicode d s)) = if len s <? 4 then len s else 4.
+Proof.
+  unfold json_decoder_parseUnicode. destruct (len s <? 4); [reflexivity|].
+  destruct (json_decoder_parseUintHex d (slice_to s 4)) as [[u' r'] err'].
+  destruct (negb (isnil err')); [reflexivity|]. destruct (negb (len r' =? 0)); reflexivity.
+Qed.
+Lemma hex4_app s m : (4 <= length s)%nat -> hex4 (s ++ m) = hex4 s.
+Proof. destruct s as [|h1 [|h2 [|h3 [|h4 r]]]]; cbn [length]; try lia. reflexivity. Qed.
+Lemma skipn4_app (s m : bytes) : (4 <= length s)%nat -> skipn 4 (s ++ m) = skipn 4 s ++ m.
+Proof. destruct s as [|h1 [|h2 [|h3 [|h4 r]]]]; cbn [length]; try lia. reflexivity. Qed.
+
+Lemma ps_loop_bad d b : len b < 2 ^ 62 ->
+  forall fuel i rest, 1 <= i <= len b -> slice_from b i = rest ->
+    bad (ps_loop d b fuel i) (forall m, g_string (rest ++ m) = None).
+Proof.
+  intros Hb. induction fuel as [|f IH]; intros i rest Hi E; [apply bad_none|].
+  cbn [ps_loop]. destruct rest as [|c r1].
+  - pose proof (sf_nil' _ _ E ltac:(lia)). destruct (Z.ltb_spec i (len b)); [lia|]. rewrite sf_all. apply bad_nil.
+  - pose proof (sf_cons' _ _ _ _ E ltac:(lia)) as (E1 & E2 & E3).
+    destruct (Z.ltb_spec i (len b)); [|lia]. cbv zeta. rewrite E2. clear E2.
+    destruct (Z.eqb_spec c 92) as [C1|C1].
+    + subst c. rewrite addi64_small by lia.
+      destruct r1 as [|e r2].
+      * pose proof (sf_nil' _ _ E3 ltac:(lia)). destruct (Z.ltb_spec (i + 1) (len b)); [lia|].
+        rewrite addi64_small by lia. destruct f as [|f']; [apply bad_none|]. cbn [ps_loop].
+        destruct (Z.ltb_spec (i + 1 + 1) (len b)); [lia|]. rewrite sf_all. apply bad_nil.
+      * pose proof (sf_cons' _ _ _ _ E3 ltac:(lia)) as (F1 & F2 & F3).
+        destruct (Z.ltb_spec (i + 1) (len b)); [|lia]. rewrite F2. clear F2. rewrite escape_letter_eq.
+        assert (GS : forall m, g_string ((92 :: e :: r2) ++ m) =
+                  if is_escape_letter e then g_string (r2 ++ m)
+                  else if e =? 117 then (if hex4 (r2 ++ m) then g_string (skipn 4 (r2 ++ m)) else None) else None).
+        { intros m. cbn [app]. rewrite g_string_eq. change (92 =? 34) with false. change (92 =? 92) with true. cbv iota.
+          rewrite g_string_u. reflexivity. }
+        destruct (is_escape_letter e).
+        -- rewrite addi64_small by lia. eapply bad_imp; [apply (IH (i + 1 + 1) r2); [lia|assumption]|].
+           intros HH m. rewrite GS. apply HH.
+        -- destruct (e =? 117); [|apply bad_P; intros m; rewrite GS; reflexivity].
+           rewrite addi64_small by lia. rewrite F3.
+           pose proof (parseUnicode_n d r2) as PN.
+           destruct (parseUnicode_spec d r2) as (u & n & er & PU & P1 & P2). rewrite PU in PN |- *. cbn [fst snd] in PN.
+           assert (L5 : len r2 = len b - (i + 1 + 1)).
+           { rewrite <- F3. apply sf_len. lia. }
+           destruct (hex4 r2) eqn:H4.
+           ++ destruct (P1 eq_refl) as [P3 P4]. subst er. clear PN. subst n. cbn [isnil negb].
+              pose proof (hex4_length r2 H4) as L4.
+              unfold len in L5 at 1.
+              rewrite (addi64_small (i + 1) 4) by lia. rewrite addi64_small by lia.
+              eapply bad_imp; [apply (IH (i + 1 + 4 + 1) (skipn 4 r2)); [lia|]|].
+              ** replace (i + 1 + 4 + 1) with (i + 1 + 1 + 4) by lia. apply sf_skip; auto; lia.
+              ** intros HH m. rewrite GS. rewrite hex4_app, H4, skipn4_app by assumption. apply HH.
+           ++ specialize (P2 eq_refl). destruct er as [er|]; [|congruence]. cbn [isnil negb].
+              destruct (Z.ltb_spec (len r2) 4) as [L4|L4].
+              ** subst n. pose proof (len_nonneg r2). rewrite addi64_small by lia.
+                 replace (i + 1 + 1 + len r2) with (len b) by lia. rewrite sf_all. apply bad_nil.
+              ** apply bad_P. intros m. rewrite GS. rewrite hex4_app, H4 by (unfold len in L4; lia). reflexivity.
+    + assert (GS : forall m, g_string ((c :: r1) ++ m) =
+                if c =? 34 then Some (r1 ++ m) else if c <? 32 then None else g_string (r1 ++ m)).
+      { intros m. cbn [app]. rewrite g_string_eq. destruct (Z.eqb_spec c 92); [contradiction|]. reflexivity. }
+      destruct (Z.eqb_spec c 34) as [C2|C2]; [apply bad_ok|].
+      destruct (c <? 32) eqn:C3; [apply bad_P; intros m; rewrite GS; reflexivity|].
+      rewrite addi64_small by lia. eapply bad_imp; [apply (IH (i + 1) r1); [lia|assumption]|].
+      intros HH m. rewrite GS. apply HH.
+Qed.
+
+Lemma parseString_bad fuel d b : wfb b = true -> len b < 2 ^ 62 ->
+  bad (json_decoder_parseString fuel d b) (forall m, g_str_tok (b ++ m) = None).
+Proof.
+  intros Hw Hb. rewrite parseString_eq.
+  destruct (Z.ltb_spec (len b) 2) as [X|X]; [rewrite sf_all; apply bad_nil|].
+  destruct b as [|c s]; [cbn in X; lia|]. rewrite at_0.
+  destruct (Z.eqb_spec c 34) as [C|C]; cbn [negb].
+  2:{ apply bad_P. intros m. cbn [app g_str_tok]. destruct (Z.eqb_spec c 34); [contradiction|reflexivity]. }
+  subst c. assert (Hw' : wfb s = true) by exact (wfb_sf (34 :: s) 1 Hw).
+  rewrite (ps_find_spec _ s _ eq_refl Hw' Hb).
+  match goal with |- context [if ?c then _ else _] => destruct c end; [|rewrite sf_all; apply bad_nil].
+  unfold ps_k8. match goal with |- context [if ?c then _ else _] => destruct c end; [apply bad_ok|].
+  apply (ps_loop_bad d (34 :: s) Hb fuel 1 s); [|reflexivity].
+  rewrite len_cons in X |- *. lia.
+Qed.
+
+(* literals *)
+Lemma strip_prefix_app_none p : forall b m, strip_prefix p b = None -> len p <= len b -> strip_prefix p (b ++ m) = None.
+Proof.
+  induction p as [|x p IH]; intros b m H L; cbn [strip_prefix] in *; [discriminate H|].
+  destruct b as [|y b].
+  - rewrite len_cons in L. pose proof (len_nonneg p). cbn in L. lia.
+  - cbn [app]. destruct (y =? x); [|reflexivity]. apply IH; [assumption|]. rewrite !len_cons in L. lia.
+Qed.
+Lemma lit_bad (p b : bytes) (k : Z) :
+  bad (Some (if ((len b >=? len p) && bytes_eqb (slice_to b (len p)) p)
+           then (slice_to b (len p), slice_from b (len p), k, None)
+           else if len b <? len p then ([], slice_from b (len b), json_Undefined, Some JErrUnexpectedEOF)
+           else ([], b, json_Undefined, Some JErrSyntax))) (forall m, strip_prefix p (b ++ m) = None).
+Proof.
+  rewrite has_prefix_strip. destruct (strip_prefix p b) as [r|] eqn:E; [apply bad_ok|].
+  destruct (Z.ltb_spec (len b) (len p)); [rewrite sf_all; apply bad_nil|].
+  apply bad_P. intros m. apply strip_prefix_app_none; assumption.
+Qed.
+
+(* containers *)
+Definition pvb_ok (fuel : nat) (d : Z) : Prop :=
+  forall b, wfb b = true -> len b < 2 ^ 62 -> flags_sound d b -> (2 * length b + 4 <= fuel)%nat ->
+    bad (json_decoder_parseValue fuel d b) (forall gf m, g_value gf (b ++ m) = None).
+
+Lemma g_str_tok_ext b r m : g_str_tok b = Some r -> g_str_tok (b ++ m) = Some (r ++ m).
+Proof.
+  unfold g_str_tok. destruct b as [|c k]; [discriminate|]. cbn [app]. destruct (c =? 34); [|discriminate].
+  apply g_string_ext.
+Qed.
+Lemma pv_nil_bad fuel d (K : bytes -> option json_err -> PR) P :
+  bad (dlet (_, b, _, err) <- json_decoder_parseValue fuel d [] in
+       if negb (isnil err) then Some ([], b, json_Undefined, err) else K b err) P.
+Proof. destruct fuel as [|f]; [apply bad_none|]. rewrite parseValue_eq. cbn. apply bad_nil. Qed.
+
+Section ContainersBad.
+  Variables (fuel' : nat) (d : Z) (a : bytes).
+  Hypothesis Hwa : wfb a = true.
+  Hypothesis Hla : len a < 2 ^ 62.
+  Hypothesis Hfa : flags_sound d a.
+  Hypothesis IHv : pvb_ok fuel' d.
+  Hypothesis Hfuel : (2 * length a + 2 <= fuel')%nat.
+
+  Lemma value_err_at p b2 : 1 <= p <= len a -> slice_from a p = b2 ->
+    bad (json_decoder_parseValue fuel' d b2) (forall gf m, g_value gf (b2 ++ m) = None).
+  Proof.
+    intros Hp E. pose proof (sf_len' a p b2 ltac:(lia) E) as LL. unfold len in LL.
+    apply IHv.
+    - rewrite <- E. apply wfb_sf. assumption.
+    - unfold len in *. lia.
+    - rewrite <- E. apply flags_sound_sf. assumption.
+    - lia.
+  Qed.
+  Lemma value_ok_at p b2 v r k : 1 <= p <= len a -> slice_from a p = b2 ->
+    json_decoder_parseValue fuel' d b2 = Some (v, r, k, None) ->
+    g_value (length a) b2 = Some r /\ exists j, 0 < j <= len b2 /\ r = slice_from b2 j.
+  Proof.
+    intros Hp E Ev. pose proof (sf_len' a p b2 ltac:(lia) E) as LL. unfold len in LL.
+    destruct (value_at fuel' d a (length a) Hwa Hla Hfa (pv_all d fuel') Hfuel (le_n _) p b2 Hp E ltac:(lia))
+      as (v' & r' & k' & e' & E' & Hok & _).
+    rewrite Ev in E'. injection E' as <- <- <- <-. destruct (Hok eq_refl) as (G & j & J1 & J2 & J3).
+    split; [assumption|]. exists j. auto.
+  Qed.
+  Lemma string_ok_at p b2 v r k : 1 <= p <= len a -> slice_from a p = b2 ->
+    json_decoder_parseString fuel' d b2 = Some (v, r, k, None) ->
+    g_str_tok b2 = Some r /\ exists j, 0 < j <= len b2 /\ r = slice_from b2 j.
+  Proof.
+    intros Hp E Ev.
+    destruct (string_at fuel' d a (length a) Hwa Hla Hfa Hfuel (le_n _) p b2 Hp E)
+      as (v' & r' & k' & e' & E' & Hok & _).
+    rewrite Ev in E'. injection E' as <- <- <- <-. destruct (Hok eq_refl) as (G & j & J1 & J2 & J3).
+    split; [assumption|]. exists j. auto.
+  Qed.
+  Lemma string_err_at p b2 : 1 <= p <= len a -> slice_from a p = b2 ->
+    bad (json_decoder_parseString fuel' d b2) (forall m, g_str_tok (b2 ++ m) = None).
+  Proof.
+    intros Hp E. pose proof (sf_len' a p b2 ltac:(lia) E) as LL. unfold len in LL.
+    apply parseString_bad.
+    - rewrite <- E. apply wfb_sf. assumption.
+    - unfold len in *. lia.
+  Qed.
+
+  Lemma arr_loop_nil n g err i P : bad (arr_loop fuel' d a n g [] err i) P.
+  Proof. destruct g as [|g]; [apply bad_none|]. cbn [arr_loop]. rewrite skipSpaces_spec. cbn. apply bad_nil. Qed.
+  Lemma obj_loop_nil n g err i P : bad (obj_loop fuel' d a n g [] err i) P.
+  Proof. destruct g as [|g]; [apply bad_none|]. cbn [obj_loop]. rewrite skipSpaces_spec. cbn. apply bad_nil. Qed.
+
+  Lemma arr_elem_bad g i p2 b2 :
+    (forall s p i, 1 <= p <= len a -> slice_from a p = s -> 0 < i -> i + len s <= len a ->
+       bad (arr_loop fuel' d a (len a) g s None i) (forall f n' m, g_after_elem f n' (s ++ m) = None)) ->
+    1 <= p2 <= len a -> slice_from a p2 = b2 -> 0 <= i -> i + len b2 <= len a ->
+    bad (dlet (_, b, _, err) <- json_decoder_parseValue fuel' d b2 in
+         if negb (isnil err) then Some ([], b, json_Undefined, err)
+         else arr_loop fuel' d a (len a) g b err (addi64 i 1))
+      (forall f n' m, g_elems f n' (b2 ++ m) = None).
+  Proof.
+    intros LoopH Hp2 E3 Hi Hil. pose proof (sf_len' a p2 _ ltac:(lia) E3) as Ls2.
+    apply (bad_dlet _ (fun b err => arr_loop fuel' d a (len a) g b err (addi64 i 1))).
+    - eapply bad_imp; [apply (value_err_at p2 b2 Hp2 E3)|].
+      intros H f n' m. destruct n' as [|n']; [reflexivity|]. rewrite g_elems_eq, H. reflexivity.
+    - intros v r k Ev. destruct (value_ok_at p2 b2 v r k Hp2 E3 Ev) as (G & j & J1 & J3).
+      destruct r as [|x r]; [apply arr_loop_nil|]. rewrite addi64_small by lia.
+      assert (E4 : slice_from a (p2 + j) = x :: r).
+      { rewrite J3, <- E3. symmetry. apply sf_sf; lia. }
+      pose proof (sf_len' a (p2 + j) _ ltac:(lia) E4) as Lr.
+      eapply bad_imp; [apply (LoopH (x :: r) (p2 + j) (i + 1)); [lia|assumption|lia|lia]|].
+      intros H f n' m. destruct n' as [|n']; [reflexivity|]. rewrite g_elems_eq.
+      destruct (g_value f (b2 ++ m)) as [r'|] eqn:G'; [|reflexivity].
+      assert (NE : x :: r <> []) by discriminate.
+      pose proof (g_value_ext_any _ _ _ G (or_introl NE) _ _ _ G') as X. subst r'. apply H.
+  Qed.
+
+  Lemma arr_loop_bad : forall g s p i, 1 <= p <= len a -> slice_from a p = s -> 0 < i -> i + len s <= len a ->
+    bad (arr_loop fuel' d a (len a) g s None i) (forall f n' m, g_after_elem f n' (s ++ m) = None).
+  Proof.
+    induction g as [|g IH]; intros s p i Hp Es Hi Hil; [apply bad_none|].
+    cbn [arr_loop]. rewrite !skipSpaces_spec.
+    destruct (skip_ws_sf a p s ltac:(lia) Es) as (p1 & Hp1 & E1).
+    pose proof (sf_len' a p s ltac:(lia) Es) as Ls.
+    pose proof (sf_len' a p1 _ ltac:(lia) E1) as Ls1.
+    destruct (skip_ws s) as [|c r1] eqn:Ews.
+    - cbn. apply bad_nil.
+    - rewrite len_cons_nz, at_0. rewrite len_cons in Ls1. pose proof (len_nonneg r1).
+      pose proof (sf_cons' _ _ _ _ E1 ltac:(lia)) as (_ & _ & E2).
+      assert (GA : forall f n' m, g_after_elem f n' (s ++ m) =
+                if c =? 44 then g_elems f n' (skip_ws (r1 ++ m)) else if c =? 93 then Some (r1 ++ m) else None).
+      { intros. unfold g_after_elem. rewrite skip_ws_app by (rewrite Ews; discriminate). rewrite Ews. reflexivity. }
+      destruct (Z.eqb_spec c 93) as [C93|C93]; [apply bad_ok|].
+      destruct (Z.eqb_spec i 0); [lia|]. cbn [negb].
+      destruct (Z.eqb_spec c 44) as [C44|C44]; cbn [negb].
+      2:{ apply bad_P. intros f n' m. rewrite GA. reflexivity. }
+      rewrite sf_1.
+      destruct (skip_ws_sf a (p1 + 1) r1 ltac:(lia) E2) as (p2 & Hp2 & E3).
+      pose proof (sf_len' a p2 _ ltac:(lia) E3) as Ls2.
+      destruct (skip_ws r1) as [|c2 r2] eqn:Ews2.
+      * cbn. apply bad_nil.
+      * rewrite len_cons_nz, at_0. rewrite len_cons in Ls2. pose proof (len_nonneg r2).
+        assert (GB : forall m, skip_ws (r1 ++ m) = (c2 :: r2) ++ m).
+        { intros. rewrite skip_ws_app by (rewrite Ews2; discriminate). rewrite Ews2. reflexivity. }
+        destruct (Z.eqb_spec c2 93) as [D93|D93].
+        { apply bad_P. intros f n' m. rewrite GA, GB. destruct n' as [|n']; [reflexivity|]. rewrite g_elems_eq.
+          cbn [app]. rewrite g_value_bad by lia. reflexivity. }
+        eapply bad_imp; [apply (arr_elem_bad g i p2 (c2 :: r2) IH); [lia|assumption|lia|rewrite len_cons; lia]|].
+        intros HH f n' m. rewrite GA, GB. apply HH.
+  Qed.
+
+  Lemma parseArray_bad s0 : a = 91 :: s0 ->
+    bad (json_decoder_parseArray (S fuel') d a) (forall gf m, g_value gf (a ++ m) = None).
+  Proof.
+    intros Ea. rewrite parseArray_eq.
+    assert (La : len a = len s0 + 1) by (rewrite Ea; apply len_cons). pose proof (len_nonneg s0) as L0.
+    assert (E0 : slice_from a 1 = s0) by (rewrite Ea; reflexivity).
+    assert (At : at_ a 0 = 91) by (rewrite Ea; reflexivity).
+    destruct (Z.ltb_spec (len a) 2) as [L2|L2]; [rewrite sf_all; apply bad_nil|].
+    rewrite At. cbn [negb Z.eqb Pos.eqb]. rewrite E0.
+    generalize fuel' at 2. intros g. destruct g as [|g]; [apply bad_none|].
+    cbn [arr_loop]. rewrite !skipSpaces_spec.
+    destruct (skip_ws_sf a 1 s0 ltac:(lia) E0) as (p1 & Hp1 & E1).
+    pose proof (sf_len' a p1 _ ltac:(lia) E1) as Ls1.
+    destruct (skip_ws s0) as [|c r1] eqn:Ews.
+    - cbn. apply bad_nil.
+    - rewrite len_cons_nz, at_0. rewrite len_cons in Ls1. pose proof (len_nonneg r1).
+      destruct (Z.eqb_spec c 93) as [C93|C93]; [apply bad_ok|].
+      change (negb (0 =? 0)) with false. cbv iota.
+      eapply bad_imp; [apply (arr_elem_bad g 0 p1 (c :: r1) (arr_loop_bad g)); [lia|assumption|lia|rewrite len_cons; lia]|].
+      intros HH gf m. destruct gf as [|f]; [reflexivity|]. rewrite Ea. cbn [app]. rewrite g_value_array.
+      rewrite skip_ws_app by (rewrite Ews; discriminate). rewrite Ews. cbn [app].
+      destruct (Z.eqb_spec c 93); [contradiction|]. apply (HH f f m).
+  Qed.
+
+  Lemma obj_member_bad g i p2 b2 :
+    (forall s p i, 1 <= p <= len a -> slice_from a p = s -> 0 < i -> i + len s <= len a ->
+       bad (obj_loop fuel' d a (len a) g s None i) (forall f n' m, g_after_member f n' (s ++ m) = None)) ->
+    1 <= p2 <= len a -> slice_from a p2 = b2 -> 0 <= i -> i + len b2 <= len a ->
+    bad (obj_k5 fuel' d a g i b2) (forall f n' m, g_members f n' (b2 ++ m) = None).
+  Proof.
+    intros LoopH Hp2 E3 Hi Hil. pose proof (sf_len' a p2 _ ltac:(lia) E3) as Ls2. unfold obj_k5.
+    apply bad_dlet.
+    - eapply bad_imp; [apply (string_err_at p2 b2 Hp2 E3)|].
+      intros HH f n' m. destruct n' as [|n']; [reflexivity|]. rewrite g_members_eq, HH. reflexivity.
+    - intros v b3 k Ev. destruct (string_ok_at p2 b2 v b3 k Hp2 E3 Ev) as (G3 & j3 & J1 & J3).
+      cbv zeta. rewrite !skipSpaces_spec.
+      assert (E4 : slice_from a (p2 + j3) = b3).
+      { rewrite J3, <- E3. symmetry. apply sf_sf; lia. }
+      pose proof (sf_len' a (p2 + j3) b3 ltac:(lia) E4) as L3.
+      assert (GM : forall f n' m, g_members f (S n') (b2 ++ m) = g_after_key f n' (b3 ++ m)).
+      { intros. rewrite g_members_eq, (g_str_tok_ext _ _ _ G3). reflexivity. }
+      destruct (skip_ws_sf a (p2 + j3) b3 ltac:(lia) E4) as (p4 & Hp4 & E5).
+      pose proof (sf_len' a p4 _ ltac:(lia) E5) as L4.
+      destruct (skip_ws b3) as [|c4 r4] eqn:Ews4.
+      { cbn. apply bad_nil. }
+      rewrite len_cons_nz, at_0. rewrite len_cons in L4. pose proof (len_nonneg r4).
+      pose proof (sf_cons' _ _ _ _ E5 ltac:(lia)) as (_ & _ & E6).
+      assert (GK : forall f n' m, g_after_key f n' (b3 ++ m) =
+                if c4 =? 58 then match g_value f (skip_ws (r4 ++ m)) with None => None | Some r => g_after_member f n' r end
+                else None).
+      { intros. unfold g_after_key. rewrite skip_ws_app by (rewrite Ews4; discriminate). rewrite Ews4. reflexivity. }
+      destruct (Z.eqb_spec c4 58) as [C58|C58]; cbn [negb].
+      2:{ apply bad_P. intros f n' m. destruct n' as [|n']; [reflexivity|]. rewrite GM, GK. reflexivity. }
+      rewrite sf_1.
+      destruct (skip_ws_sf a (p4 + 1) r4 ltac:(lia) E6) as (p5 & Hp5 & E7).
+      pose proof (sf_len' a p5 _ ltac:(lia) E7) as L5.
+      destruct (skip_ws r4) as [|c5 r5] eqn:Ews5; [apply pv_nil_bad|].
+      assert (GB : forall m, skip_ws (r4 ++ m) = (c5 :: r5) ++ m).
+      { intros. rewrite skip_ws_app by (rewrite Ews5; discriminate). rewrite Ews5. reflexivity. }
+      apply (bad_dlet _ (fun b err => obj_loop fuel' d a (len a) g b err (addi64 i 1))).
+      + eapply bad_imp; [apply (value_err_at p5 (c5 :: r5) ltac:(lia) E7)|].
+        intros HH f n' m. destruct n' as [|n']; [reflexivity|]. rewrite GM, GK, GB, HH. reflexivity.
+      + intros v' r k' Ev'. destruct (value_ok_at p5 _ v' r k' ltac:(lia) E7 Ev') as (G & j & J1' & J3').
+        destruct r as [|x r]; [apply obj_loop_nil|]. rewrite addi64_small by lia.
+        assert (E8 : slice_from a (p5 + j) = x :: r).
+        { rewrite J3', <- E7. symmetry. apply sf_sf; lia. }
+        pose proof (sf_len' a (p5 + j) _ ltac:(lia) E8) as Lr.
+        eapply bad_imp; [apply (LoopH (x :: r) (p5 + j) (i + 1)); [lia|assumption|lia|lia]|].
+        intros HH f n' m. destruct n' as [|n']; [reflexivity|]. rewrite GM, GK, GB.
+        destruct (g_value f ((c5 :: r5) ++ m)) as [r'|] eqn:G'; [|reflexivity].
+        assert (NE : x :: r <> []) by discriminate.
+      pose proof (g_value_ext_any _ _ _ G (or_introl NE) _ _ _ G') as X. subst r'. apply HH.
+  Qed.
+
+  Lemma obj_loop_bad : forall g s p i, 1 <= p <= len a -> slice_from a p = s -> 0 < i -> i + len s <= len a ->
+    bad (obj_loop fuel' d a (len a) g s None i) (forall f n' m, g_after_member f n' (s ++ m) = None).
+  Proof.
+    induction g as [|g IH]; intros s p i Hp Es Hi Hil; [apply bad_none|].
+    cbn [obj_loop]. rewrite !skipSpaces_spec.
+    destruct (skip_ws_sf a p s ltac:(lia) Es) as (p1 & Hp1 & E1).
+    pose proof (sf_len' a p s ltac:(lia) Es) as Ls.
+    pose proof (sf_len' a p1 _ ltac:(lia) E1) as Ls1.
+    destruct (skip_ws s) as [|c r1] eqn:Ews.
+    - cbn. apply bad_nil.
+    - rewrite len_cons_nz, at_0. rewrite len_cons in Ls1. pose proof (len_nonneg r1).
+      pose proof (sf_cons' _ _ _ _ E1 ltac:(lia)) as (_ & _ & E2).
+      assert (GA : forall f n' m, g_after_member f n' (s ++ m) =
+                if c =? 44 then g_members f n' (skip_ws (r1 ++ m)) else if c =? 125 then Some (r1 ++ m) else None).
+      { intros. unfold g_after_member. rewrite skip_ws_app by (rewrite Ews; discriminate). rewrite Ews. reflexivity. }
+      destruct (Z.eqb_spec c 125) as [C125|C125]; [apply bad_ok|].
+      destruct (Z.eqb_spec i 0); [lia|]. cbn [negb].
+      destruct (Z.eqb_spec c 44) as [C44|C44]; cbn [negb].
+      2:{ apply bad_P. intros f n' m. rewrite GA. reflexivity. }
+      rewrite sf_1.
+      destruct (skip_ws_sf a (p1 + 1) r1 ltac:(lia) E2) as (p2 & Hp2 & E3).
+      pose proof (sf_len' a p2 _ ltac:(lia) E3) as Ls2.
+      destruct (skip_ws r1) as [|c2 r2] eqn:Ews2.
+      * cbn. apply bad_nil.
+      * rewrite len_cons_nz, at_0. rewrite len_cons in Ls2. pose proof (len_nonneg r2).
+        assert (GB : forall m, skip_ws (r1 ++ m) = (c2 :: r2) ++ m).
+        { intros. rewrite skip_ws_app by (rewrite Ews2; discriminate). rewrite Ews2. reflexivity. }
+        destruct (Z.eqb_spec c2 125) as [D125|D125].
+        { subst c2. apply bad_P. intros f n' m. rewrite GA, GB. destruct n' as [|n']; [reflexivity|]. rewrite g_members_eq.
+          reflexivity. }
+        eapply bad_imp; [apply (obj_member_bad g i p2 (c2 :: r2) IH); [lia|assumption|lia|rewrite len_cons; lia]|].
+        intros HH f n' m. rewrite GA, GB. apply HH.
+  Qed.
+
+  Lemma parseObject_bad s0 : a = 123 :: s0 ->
+    bad (json_decoder_parseObject (S fuel') d a) (forall gf m, g_value gf (a ++ m) = None).
+  Proof.
+    intros Ea. rewrite parseObject_eq.
+    assert (La : len a = len s0 + 1) by (rewrite Ea; apply len_cons). pose proof (len_nonneg s0) as L0.
+    assert (E0 : slice_from a 1 = s0) by (rewrite Ea; reflexivity).
+    assert (At : at_ a 0 = 123) by (rewrite Ea; reflexivity).
+    destruct (Z.ltb_spec (len a) 2) as [L2|L2]; [rewrite sf_all; apply bad_nil|].
+    rewrite At. cbn [negb Z.eqb Pos.eqb]. rewrite E0.
+    generalize fuel' at 2. intros g. destruct g as [|g]; [apply bad_none|].
+    cbn [obj_loop]. rewrite !skipSpaces_spec.
+    destruct (skip_ws_sf a 1 s0 ltac:(lia) E0) as (p1 & Hp1 & E1).
+    pose proof (sf_len' a p1 _ ltac:(lia) E1) as Ls1.
+    destruct (skip_ws s0) as [|c r1] eqn:Ews.
+    - cbn. apply bad_nil.
+    - rewrite len_cons_nz, at_0. rewrite len_cons in Ls1. pose proof (len_nonneg r1).
+      destruct (Z.eqb_spec c 125) as [C125|C125]; [apply bad_ok|].
+      change (negb (0 =? 0)) with false. cbv iota.
+      eapply bad_imp; [apply (obj_member_bad g 0 p1 (c :: r1) (obj_loop_bad g)); [lia|assumption|lia|rewrite len_cons; lia]|].
+      intros HH gf m. destruct gf as [|f]; [reflexivity|]. rewrite Ea. cbn [app]. rewrite g_value_object.
+      rewrite skip_ws_app by (rewrite Ews; discriminate). rewrite Ews. cbn [app].
+      destruct (Z.eqb_spec c 125); [contradiction|]. apply (HH f f m).
+  Qed.
+End ContainersBad.
+
+Lemma pv_bad_all d : forall fuel, pvb_ok fuel d.
+Proof.
+  induction fuel as [fuel IHf] using lt_wf_ind. intros b Hw Hl Hfs Hfuel.
+  destruct fuel as [|f1]; [lia|]. rewrite parseValue_eq.
+  destruct b as [|c r]; [cbn; apply bad_nil|].
+  rewrite len_cons_nz, at_0. cbv zeta.
+  destruct f1 as [|f2]; [cbn [length] in Hfuel; lia|].
+  destruct (Z.eqb_spec c 123) as [C1|C1].
+  { subst c. rewrite dlet_id.
+    apply (parseObject_bad f2 d (123 :: r) Hw Hl Hfs (IHf f2 ltac:(lia)) ltac:(lia) r eq_refl). }
+  destruct (Z.eqb_spec c 91) as [C2|C2].
+  { subst c. rewrite dlet_id.
+    apply (parseArray_bad f2 d (91 :: r) Hw Hl Hfs (IHf f2 ltac:(lia)) ltac:(lia) r eq_refl). }
+  destruct (Z.eqb_spec c 34) as [C3|C3].
+  { subst c. rewrite dlet_id. eapply bad_imp; [apply parseString_bad; assumption|].
+    intros HH gf m. destruct gf as [|f]; [reflexivity|]. cbn [app]. rewrite g_value_string. exact (HH m). }
+  destruct (Z.eqb_spec c 110) as [C4|C4].
+  { subst c.
+    assert (L : bad (Some (if ((len (110 :: r) >=? 4) && bytes_eqb (slice_to (110 :: r) 4) [110; 117; 108; 108])
+           then (slice_to (110 :: r) 4, slice_from (110 :: r) 4, json_Null, None)
+           else if len (110 :: r) <? 4 then ([], slice_from (110 :: r) (len (110 :: r)), json_Undefined, Some JErrUnexpectedEOF)
+           else ([], 110 :: r, json_Undefined, Some JErrSyntax))) (forall gf m, g_value gf ((110 :: r) ++ m) = None)).
+    { eapply bad_imp; [exact (lit_bad [110; 117; 108; 108] (110 :: r) json_Null)|].
+      intros HH gf m. destruct gf as [|f]; [reflexivity|]. cbn [app]. rewrite g_value_null. exact (HH m). }
+    unfold json_decoder_parseNull, json_hasNullPrefix.
+    destruct ((len (110 :: r) >=? 4) && bytes_eqb (slice_to (110 :: r) 4) [110; 117; 108; 108]); [exact L|].
+    destruct (len (110 :: r) <? 4); exact L. }
+  destruct (Z.eqb_spec c 116) as [C5|C5].
+  { subst c.
+    assert (L : bad (Some (if ((len (116 :: r) >=? 4) && bytes_eqb (slice_to (116 :: r) 4) [116; 114; 117; 101])
+           then (slice_to (116 :: r) 4, slice_from (116 :: r) 4, json_True, None)
+           else if len (116 :: r) <? 4 then ([], slice_from (116 :: r) (len (116 :: r)), json_Undefined, Some JErrUnexpectedEOF)
+           else ([], 116 :: r, json_Undefined, Some JErrSyntax))) (forall gf m, g_value gf ((116 :: r) ++ m) = None)).
+    { eapply bad_imp; [exact (lit_bad [116; 114; 117; 101] (116 :: r) json_True)|].
+      intros HH gf m. destruct gf as [|f]; [reflexivity|]. cbn [app]. rewrite g_value_true. exact (HH m). }
+    unfold json_decoder_parseTrue, json_hasTruePrefix.
+    destruct ((len (116 :: r) >=? 4) && bytes_eqb (slice_to (116 :: r) 4) [116; 114; 117; 101]); [exact L|].
+    destruct (len (116 :: r) <? 4); exact L. }
+  destruct (Z.eqb_spec c 102) as [C6|C6].
+  { subst c.
+    assert (L : bad (Some (if ((len (102 :: r) >=? 5) && bytes_eqb (slice_to (102 :: r) 5) [102; 97; 108; 115; 101])
+           then (slice_to (102 :: r) 5, slice_from (102 :: r) 5, json_False, None)
+           else if len (102 :: r) <? 5 then ([], slice_from (102 :: r) (len (102 :: r)), json_Undefined, Some JErrUnexpectedEOF)
+           else ([], 102 :: r, json_Undefined, Some JErrSyntax))) (forall gf m, g_value gf ((102 :: r) ++ m) = None)).
+    { eapply bad_imp; [exact (lit_bad [102; 97; 108; 115; 101] (102 :: r) json_False)|].
+      intros HH gf m. destruct gf as [|f]; [reflexivity|]. cbn [app]. rewrite g_value_false. exact (HH m). }
+    unfold json_decoder_parseFalse, json_hasFalsePrefix.
+    destruct ((len (102 :: r) >=? 5) && bytes_eqb (slice_to (102 :: r) 5) [102; 97; 108; 115; 101]); [exact L|].
+    destruct (len (102 :: r) <? 5); exact L. }
+  assert (GO : forall f m, g_value (S f) ((c :: r) ++ m) = g_number ((c :: r) ++ m)).
+  { intros f m. cbn [app]. apply g_value_other. lia. }
+  match goal with |- context [if ?t then _ else _] => destruct t eqn:T end.
+  - rewrite dlet_id. eapply bad_imp; [apply parseNumber_bad; [assumption|lia]|].
+    intros HH gf m. destruct gf as [|f]; [reflexivity|]. rewrite GO. apply HH.
+  - apply bad_P. intros gf m. destruct gf as [|f]; [reflexivity|]. rewrite GO. cbn [app].
+    apply g_number_bad; [lia|]. unfold is_digit.
+    destruct (Z.leb_spec 48 c), (Z.leb_spec c 57); try reflexivity. exfalso. lia.
+Qed.
+
 Lemma pv_bad : forall fuel d b v r k e, wfb b = true -> len b < 2 ^ 62 -> flags_sound d b -> (2 * length b + 4 <= fuel)%nat ->
   json_decoder_parseValue fuel d b = Some (v, r, k, Some e) -> r <> [] -> forall gf m, g_value gf (b ++ m) = None.
-Admitted.
-Lemma pv_kind : forall fuel d b v r k, json_decoder_parseValue fuel d b = Some (v, r, k, None) -> num_start b = true -> is_num_kind k = true.
-Admitted.
+Proof.
+  intros fuel d b v r k e Hw Hl Hfs Hfuel E N. exact (pv_bad_all d fuel b Hw Hl Hfs Hfuel v r k e E N).
+Qed.
 
 (* ================= D. skipSpacesN, the reader, one step of readValue ================= *)
 Lemma ssn_fst b : fst (json_skipSpacesN b) = skip_ws b.
